@@ -74,6 +74,9 @@ type Service struct {
 
 	handlers         []FailureHandler
 	runningPipelines *csync.Map[string, *runnablePipeline]
+	// publishMu makes the cleanup goroutine's compare-and-delete atomic with
+	// respect to runPipeline publishing the next run (same as pkg/lifecycle).
+	publishMu sync.Mutex
 
 	// terminalErrors holds the terminal error of a pipeline after it has stopped
 	// and been removed from runningPipelines, so WaitPipeline can still report it
@@ -1655,7 +1658,11 @@ func (s *Service) runPipeline(rp *runnablePipeline) error {
 		s.terminalErrors.Set(rp.pipeline.ID, err)
 
 		// confirmed that all nodes stopped, we can now remove the pipeline from the running pipelines
-		s.runningPipelines.Delete(rp.pipeline.ID)
+		// - but only this run's own entry: once the stopped status above is
+		// visible a new Start may already have published the next run under
+		// the same ID, and a blind Delete would strand that live run outside
+		// the map (Stop/Wait answer "not running" for a running pipeline).
+		s.deleteRunningPipelineIfCurrent(rp.pipeline.ID, rp)
 
 		s.notify(rp.pipeline.ID, err)
 		return err
@@ -1699,7 +1706,9 @@ func (s *Service) runPipeline(rp *runnablePipeline) error {
 	//   - that cleanup goroutine blocks on startupDone (closed below), so it
 	//     can never Delete before this Set, which would strand a live run
 	//     outside the map.
+	s.publishMu.Lock()
 	s.runningPipelines.Set(rp.pipeline.ID, rp)
+	s.publishMu.Unlock()
 
 	// It's now safe to make the potentially slow UpdateStatus call and then
 	// release the cleanup goroutine to make its own. close(startupDone)
@@ -1708,6 +1717,18 @@ func (s *Service) runPipeline(rp *runnablePipeline) error {
 	err := s.pipelines.UpdateStatus(ctx, rp.pipeline.ID, pipeline.StatusRunning, "")
 	close(startupDone)
 	return err
+}
+
+// deleteRunningPipelineIfCurrent removes rp from runningPipelines only if it is
+// still the published run for id (a newer run must not be removed by the
+// cleanup of an older one).
+func (s *Service) deleteRunningPipelineIfCurrent(id string, rp *runnablePipeline) {
+	s.publishMu.Lock()
+	defer s.publishMu.Unlock()
+
+	if current, ok := s.runningPipelines.Get(id); ok && current == rp {
+		s.runningPipelines.Delete(id)
+	}
 }
 
 // recoverPipeline attempts to recover a pipeline that stopped with a transient
